@@ -171,7 +171,29 @@ func runC19(c *Ctx) {
 				return false
 			}
 			e := elems[0]
-			if viaSprintf {
+			if bo, isBo := e.(*ssa.BinOp); viaSprintf && isBo && bo.Op == token.ADD {
+				// strings.ToUpper(m) + " " + path, spelled as concatenation (possibly through a hoisted prefix)
+				var pieces []ssa.Value
+				var flat func(v ssa.Value)
+				flat = func(v ssa.Value) {
+					if b2, ok2 := v.(*ssa.BinOp); ok2 && b2.Op == token.ADD {
+						flat(b2.X)
+						flat(b2.Y)
+						return
+					}
+					pieces = append(pieces, v)
+				}
+				flat(e)
+				if len(pieces) != 3 {
+					return false
+				}
+				okM, _ := allOrigins(pieces[0], oCall(-1, "strings.ToUpper"))
+				sep, isSep := constString(pieces[1])
+				if !okM || !isSep || sep != " " {
+					return false
+				}
+				e = pieces[2]
+			} else if viaSprintf {
 				sp := asCall(e)
 				if sp == nil || calleeName(&sp.Call) != "fmt.Sprintf" {
 					return false
@@ -705,6 +727,37 @@ func ruleRoutableAPIDelegates(c *Ctx, rule string, which ...string) {
 					continue
 				}
 				ok, bad := allOrigins(r.Results[0], oFieldLoad(adT, fld, nil), oFieldLoad(apiT, m, fromAPI))
+				if !ok {
+					// the snapshot field under another name (both string fields renamed at once): it is the field every store of
+					// which takes the API's own m
+					if ad, isLd := derefLoad(r.Results[0]); isLd {
+						if fa, isFA := ad.(*ssa.FieldAddr); isFA {
+							if n, _ := structOf(fa.X.Type()); n != nil && typeFullName(n) == adT {
+								nSt, okSt := 0, true
+								for _, fn2 := range p.LibFuncs("rt/middleware") {
+									for _, in := range ownInstrs(fn2) {
+										st, isSt := in.(*ssa.Store)
+										if !isSt {
+											continue
+										}
+										fa2, isFA2 := st.Addr.(*ssa.FieldAddr)
+										if !isFA2 || fa2.Field != fa.Field {
+											continue
+										}
+										if n2, _ := structOf(fa2.X.Type()); n2 == nil || typeFullName(n2) != adT {
+											continue
+										}
+										nSt++
+										if okV, _ := allOrigins(st.Val, oFieldLoad(apiT, m, nil)); !okV {
+											okSt = false
+										}
+									}
+								}
+								ok = nSt > 0 && okSt
+							}
+						}
+					}
+				}
 				c.obI(rule, r, "adapter-answers-"+m, ok, "the routable API's "+m+" is the registered API's "+m, "origin "+describeOrigin(bad))
 			}
 			n := 0
